@@ -867,3 +867,183 @@ func (in *inliner) pureTempsIn(fd *ast.FuncDecl) int {
 func pathPrefix(a, b string) bool {
 	return a == b || strings.HasPrefix(b, a+".") || strings.HasPrefix(b, a+"[")
 }
+
+// ---- index loops ----
+
+// normaliseIndexLoops gives the three spellings of "for every element of X"
+// one shape, `for i, v := range X`:
+//
+//   - `for i := 0; i < len(X); i++ { … }` (i not written in the body) becomes
+//     `for i := range X { … }`;
+//   - in `for i := range X { … }` without a value variable, every READ of
+//     `X[i]` (not an assignment target, not under & and not the receiver of a
+//     call) is replaced by a value variable introduced for the purpose;
+//   - `v := X[i]` as the first statement is absorbed into the range clause.
+//
+// X must be call-free and must not be assigned in the body.
+func normaliseIndexLoops(info *types.Info, pkg *types.Package, f *ast.File) int {
+	n := 0
+	assignedIn := func(body *ast.BlockStmt, o types.Object, path string) bool {
+		bad := false
+		ast.Inspect(body, func(m ast.Node) bool {
+			switch x := m.(type) {
+			case *ast.AssignStmt:
+				for _, l := range x.Lhs {
+					if r, p, ok := accessPath2(info, l); ok && r == o && (pathPrefix(p, path) || pathPrefix(path, p)) && p != path+"[]" && !strings.HasPrefix(p, path+"[]") {
+						bad = true
+					}
+				}
+			case *ast.IncDecStmt:
+				if r, p, ok := accessPath2(info, x.X); ok && r == o && p == path {
+					bad = true
+				}
+			}
+			return true
+		})
+		return bad
+	}
+	var fix func(list []ast.Stmt)
+	fix = func(list []ast.Stmt) {
+		for idx, st := range list {
+			// (1) classic counting loop
+			if fs, ok := st.(*ast.ForStmt); ok && fs.Init != nil && fs.Cond != nil && fs.Post != nil {
+				init, ok1 := fs.Init.(*ast.AssignStmt)
+				cond, ok2 := fs.Cond.(*ast.BinaryExpr)
+				post, ok3 := fs.Post.(*ast.IncDecStmt)
+				if ok1 && ok2 && ok3 && init.Tok == token.DEFINE && len(init.Lhs) == 1 && len(init.Rhs) == 1 && cond.Op == token.LSS && post.Tok == token.INC {
+					iv := objOf(info, init.Lhs[0])
+					zero, isC := constInt(info, init.Rhs[0])
+					lenCall, isCall := ast.Unparen(cond.Y).(*ast.CallExpr)
+					if iv != nil && isC && zero == 0 && objOf(info, cond.X) == iv && objOf(info, post.X) == iv && isCall && len(lenCall.Args) == 1 {
+						if id, isID := lenCall.Fun.(*ast.Ident); isID && id.Name == "len" {
+							X := lenCall.Args[0]
+							root, path, okp := accessPath2(info, X)
+							if _, isSliceLike := info.TypeOf(X).Underlying().(*types.Slice); okp && isSliceLike && !assignedIn(fs.Body, root, path) && !assignedIn(fs.Body, iv, "") {
+								rs := &ast.RangeStmt{For: fs.For, Key: init.Lhs[0], Tok: token.DEFINE, TokPos: init.TokPos, X: X, Body: fs.Body}
+								list[idx] = rs
+								st = rs
+								n++
+							}
+						}
+					}
+				}
+			}
+			rs, ok := st.(*ast.RangeStmt)
+			if !ok || rs.Key == nil || rs.Tok != token.DEFINE {
+				continue
+			}
+			kid, isID := rs.Key.(*ast.Ident)
+			if !isID || kid.Name == "_" {
+				continue
+			}
+			if vid, hasV := rs.Value.(*ast.Ident); hasV && vid.Name != "_" {
+				continue
+			}
+			iv := info.Defs[kid]
+			root, path, okp := accessPath2(info, rs.X)
+			sl, isSlice := info.TypeOf(rs.X).Underlying().(*types.Slice)
+			if iv == nil || !okp || !isSlice || assignedIn(rs.Body, root, path) {
+				continue
+			}
+			xid := exprIdentity(info, rs.X)
+			// (3) `v := X[i]` first: absorb
+			var val *ast.Ident
+			absorbed := false
+			if len(rs.Body.List) > 0 {
+				if as, ok := rs.Body.List[0].(*ast.AssignStmt); ok && as.Tok == token.DEFINE && len(as.Lhs) == 1 && len(as.Rhs) == 1 {
+					if ix, ok := ast.Unparen(as.Rhs[0]).(*ast.IndexExpr); ok && exprIdentity(info, ix.X) == xid && objOf(info, ix.Index) == iv {
+						if id, ok := as.Lhs[0].(*ast.Ident); ok && info.Defs[id] != nil {
+							val = id
+							absorbed = true
+							rs.Body.List = rs.Body.List[1:]
+						}
+					}
+				}
+			}
+			var vobj types.Object
+			if val != nil {
+				vobj = info.Defs[val]
+			} else {
+				v := types.NewVar(rs.For, pkg, "elem", sl.Elem())
+				vobj = v
+				val = &ast.Ident{Name: "elem", NamePos: rs.For}
+				info.Defs[val] = v
+			}
+			// (2) reads of X[i]; places where the element itself (not a copy) is meant are kept:
+			// assignment targets, operands of & and ++/--, receivers of pointer methods
+			keep := map[ast.Node]bool{}
+			var markChain func(e ast.Expr)
+			markChain = func(e ast.Expr) {
+				for {
+					switch x := ast.Unparen(e).(type) {
+					case *ast.IndexExpr:
+						keep[x] = true
+						e = x.X
+						continue
+					case *ast.SelectorExpr:
+						e = x.X
+						continue
+					case *ast.StarExpr:
+						e = x.X
+						continue
+					}
+					return
+				}
+			}
+			ast.Inspect(rs.Body, func(m ast.Node) bool {
+				switch x := m.(type) {
+				case *ast.AssignStmt:
+					for _, l := range x.Lhs {
+						markChain(l)
+					}
+				case *ast.IncDecStmt:
+					markChain(x.X)
+				case *ast.UnaryExpr:
+					if x.Op == token.AND {
+						markChain(x.X)
+					}
+				case *ast.CallExpr:
+					if sel, ok := x.Fun.(*ast.SelectorExpr); ok {
+						if s, isSel := info.Selections[sel]; isSel && s.Kind() == types.MethodVal {
+							if sig, ok := s.Obj().Type().(*types.Signature); ok && sig.Recv() != nil {
+								if _, ptr := sig.Recv().Type().(*types.Pointer); ptr {
+									markChain(sel.X)
+								}
+							}
+						}
+					}
+				}
+				return true
+			})
+			replaced := 0
+			astutil.Apply(rs.Body, func(cur *astutil.Cursor) bool {
+				ix, ok := cur.Node().(*ast.IndexExpr)
+				if !ok || keep[ix] || objOf(info, ix.Index) != iv || exprIdentity(info, ix.X) != xid {
+					return true
+				}
+				u := &ast.Ident{Name: val.Name, NamePos: ix.Pos()}
+				info.Uses[u] = vobj
+				info.Types[u] = types.TypeAndValue{Type: sl.Elem()}
+				cur.Replace(u)
+				replaced++
+				return false
+			}, nil)
+			if replaced > 0 || absorbed {
+				rs.Value = val
+				n++
+			}
+		}
+	}
+	ast.Inspect(f, func(m ast.Node) bool {
+		switch x := m.(type) {
+		case *ast.BlockStmt:
+			fix(x.List)
+		case *ast.CaseClause:
+			fix(x.Body)
+		case *ast.CommClause:
+			fix(x.Body)
+		}
+		return true
+	})
+	return n
+}
